@@ -1,6 +1,6 @@
 (* Parametricity tie between the executed instance (Q) and the proved instance (R):
    NumQ and NumR are related by  fun q r => Q2R q = r. *)
-From Coq Require Import List ZArith QArith Qround Reals Lra Bool Qreals.
+From Coq Require Import List ZArith QArith Qround Reals Lra Lia Bool Qreals.
 From SplipyModel Require Import Spec.BSpline Model.Num.
 From Param Require Import Param.
 Import ListNotations.
@@ -54,6 +54,22 @@ Proof.
   rewrite <- H. ring.
 Qed.
 
+Lemma qnorm_Qeq q : (qnorm q == q)%Q.
+Proof.
+  unfold qnorm. cbv zeta.
+  set (g := Z.abs _).
+  destruct ((1 <? g)%Z && (Qnum q mod g =? 0)%Z && (Z.pos (Qden q) mod g =? 0)%Z) eqn:E; [|reflexivity].
+  apply andb_true_iff in E. destruct E as [E E3]. apply andb_true_iff in E. destruct E as [E1 E2].
+  apply Z.ltb_lt in E1. apply Z.eqb_eq in E2. apply Z.eqb_eq in E3.
+  assert (Hg : (g <> 0)%Z) by lia.
+  pose proof (Z.div_exact (Qnum q) g Hg) as [_ Hn]. specialize (Hn E2).
+  pose proof (Z.div_exact (Z.pos (Qden q)) g Hg) as [_ Hd]. specialize (Hd E3).
+  assert (Hdp : (0 < Z.pos (Qden q) / g)%Z).
+  { apply Z.div_str_pos. split; [lia|]. apply Z.divide_pos_le; [lia|]. apply Z.mod_divide; assumption. }
+  unfold Qeq. cbn [Qnum Qden]. rewrite Z2Pos.id by exact Hdp.
+  rewrite Hd at 1. rewrite Hn at 2. ring.
+Qed.
+
 Lemma NumQR : Num_R Q R QR NumQ NumR.
 Proof.
   unfold NumQ, NumR. constructor; unfold QR.
@@ -79,6 +95,7 @@ Proof.
     + destruct (Qeq_bool a b) eqn:E; [|reflexivity]. exfalso. apply L. apply Qeq_eqR. now apply Qeq_bool_iff.
   - intros z z' X. apply Z_R_eq in X. subst. apply Q2R_inject_Z.
   - intros a a' <-. unfold Rfloor. rewrite Qfloor_up. apply Z_R_refl.
+  - intros a a' <-. apply Qeq_eqR. apply qnorm_Qeq.
 Qed.
 
 Lemma list_R_map (l : list Q) : list_R Q R QR l (map Q2R l).
